@@ -151,6 +151,10 @@ func (m *machine) scanCalls() {
 			return
 		}
 		creates := fc.Err == nil && (fc.Op == "create-excl" || fc.Op == "link" || fc.Op == "open-create" || fc.Op == "writefile-open" || fc.Op == "rename")
+		if creates && (kind == "ready" || kind == "local") && m.reportedAtStart[week] && !strings.Contains(filepath.Base(fc.Path), ".tmp") {
+			m.fail("second-report", "week %s had a report when the round started, yet uploader task %s created %s", week, fc.Task.Name, fc.Path)
+			return
+		}
 		if creates && kind == "ready" {
 			// A successful exclusive creation means the name did not exist: the
 			// latest creator is the run that built the report now in place.
@@ -229,6 +233,9 @@ func (m *machine) scanRequests() {
 			return
 		}
 		today := refcal.Date(refcal.DayOfUnix(m.roundStart.Unix()))
+		if st, ok := m.startOf[r.Task]; ok && m.uploaderOf[r.Task] == m.round && st.After(m.roundStart) {
+			today = refcal.Date(refcal.DayOfUnix(st.Unix())) // a late starter of this round
+		}
 		if len(week) == 10 && week > today {
 			m.fail("future-report-sent", "report for week %s was sent on %s", week, today)
 			return
